@@ -29,5 +29,30 @@ CHECKS = {
         "ref": "DESIGN.md §3 C03", "note": TB,
         "technique": "explicit-state model checking: exhaustive enumeration of inputs, option grids, limit values and bounded call histories",
     },
+    "C09": {
+        "text": "Every call of a completely enumerated argument grid (problem kind x time direction x every enclosing subspace x "
+                "avoid lists x source-variable lists x solution limits; both solver entry points; network as BooleanNetwork and as "
+                "Petri net) on every 1- and 2-variable network and a reduced grid on 3-variable universes is executed and "
+                "compared, as a multiset, with the answer enumerated by the reference model over all 3^n subspaces / 2^n states.",
+        "ref": "DESIGN.md §3 C09", "note": TB,
+        "technique": "explicit-state model checking: exhaustive enumeration of inputs and call arguments against a reference enumeration",
+    },
+    "C10": {
+        "text": "For every network of the small universes every state x variable x direction, every one of the 3^n subspaces "
+                "(restriction, chained restriction) and every reference trap space (network percolation with and without "
+                "constant removal) is enumerated and transition enabledness / update values compared with the truth tables; "
+                "for all 210 repository models the local state space of every update function with <=12 (quick) / <=16 "
+                "(thorough) inputs is enumerated completely against an independent expression evaluator.",
+        "ref": "DESIGN.md §3 C10", "note": TB + " Functions with more inputs than the bound are counted as not covered in the evidence.",
+        "technique": "explicit-state model checking: exhaustive state/subspace enumeration per network and per update function",
+    },
+    "C11": {
+        "text": "Every subspace (3^n, consistent or conflicting, trap or not) of every network in the universes (incl. all 54 872 "
+                "three-variable networks over <=2-input functions) is percolated on the real code by both variants and the "
+                "results, the conflict sets, the single-node LDOIs and the single-driver sets for every target are compared "
+                "with the reference least fixed point.",
+        "ref": "DESIGN.md §3 C11", "note": TB,
+        "technique": "explicit-state model checking: exhaustive network x subspace enumeration against a reference least fixed point",
+    },
 }
 NOT_CLAIMED = {f"C{i:02d}": "not claimed yet: check under construction (see DESIGN.md §9 for the build order)" for i in range(1, 21)}
